@@ -44,6 +44,23 @@ theorem C02_int_keeps_axis (N : Nat) (p : PSlice) (hp : NonNegSl p) (i : Int)
   · simp [h0]
   · rw [if_neg h0, if_pos ⟨h1, by omega⟩]; simp
 
+/-- **Requested stop beyond the extent** (`fix_slice` normalises an open or over-long stop to
+    `N + start`, so `x[1::3]` on 2 elements is requested as `[1:3:2]`, last index 2 ≥ N): a server
+    that slices like numpy (`sel`, the specification function; compared with the pydap DAP2 server,
+    `Arrayterator` and the reference DAP4 server in the check) serves for a stop at or beyond `N`
+    what it serves for the open-ended slice.  `C02_axis` and the theorems below put no upper bound on
+    a stop (`NonNegSl`, `ValidIdx` only bound fields from below), so they cover these requests. -/
+theorem C02_stop_beyond_extent (N : Nat) (r : PSlice) (b : Int) (hb : r.stop = some b) (h : (N : Int) ≤ b) :
+    sel N r = sel N ⟨r.start, none, r.step⟩ := by
+  obtain ⟨st, sp, se⟩ := r
+  simp only at hb
+  subst hb
+  simp only [sel, npBound]
+  have : ¬ b < 0 := by omega
+  simp [this]
+  congr 2
+  omega
+
 /-- **Indexing without URL pre-constraint, index without Ellipsis** (short tuples included):
     the answer is numpy's, axis by axis. -/
 theorem C02_index (shape : List Nat) (idx : List Idx) (h : NoEll idx) (hl : idx.length ≤ shape.length)
@@ -214,5 +231,16 @@ example : ValidList [2, 3, 6] (padPre [PSlice.all, PSlice.all, ⟨some 1, some 6
     ⟨by simp, by simp, by simp⟩, ⟨by decide, by decide⟩, trivial⟩
 example : specList [2, 3, 6] (padPre [PSlice.all, PSlice.all, ⟨some 1, some 6, some 2⟩] 3)
     (npExpand [] (some [Idx.int (-1)]) 3) = [[some 0, some 1], [some 0, some 1, some 2], [some 5]] := by decide
+
+/-- `x[1::3]` on 2 elements: the request is `1:3:3` (text `[1:3:2]`, last index beyond the extent) and
+    the server's numpy slicing of it still selects numpy's single position 1; same for the unstrided `x[1:]` (`[1:1:2]`) -/
+example : reqAxis 2 PSlice.all (Idx.sl ⟨some 1, none, some 3⟩) = ⟨some 1, some 3, some 3⟩ := by decide
+example : npSlices [2] [reqAxis 2 PSlice.all (Idx.sl ⟨some 1, none, some 3⟩)] = .ok [[1]] := by decide
+example : reqAxis 2 PSlice.all (Idx.sl ⟨some 1, none, none⟩) = ⟨some 1, some 3, some 1⟩ := by decide
+example : npSlices [2] [reqAxis 2 PSlice.all (Idx.sl ⟨some 1, none, none⟩)] = .ok [[1]] := by decide
+example : sel 2 ⟨some 1, some 3, some 3⟩ = sel 2 ⟨some 1, none, some 3⟩ :=
+  C02_stop_beyond_extent 2 _ 3 rfl (by decide)
+example : ValidIdx (sel 2 PSlice.all).length (Idx.sl ⟨some 1, none, some 3⟩) := by
+  refine ⟨by simp, by simp, by simp, by decide⟩
 
 end Pydap.C02
